@@ -281,4 +281,32 @@ def render (p : Problem) : Option (List String) := complete p MontePyVerif.Gen.W
 /-- number of `format_for_mcnp_input` calls / `fh.write` calls of a fault-free run (used by the driver) -/
 def countFormats (p : Problem) (seq : List Seg) : Nat := (seq.map (fun s => (segObjects p s).length)).sum
 
+/-! ## trailing blanks (repaired code)
+
+`write_to_file` writes `line.rstrip() + "\n"`: the reader drops trailing blanks, so writing them made
+a file change on the next read/write generation (C19).  The stripping is independent of the fault
+plan and of the file system, so the repaired writer is the writer above applied to the problem whose
+formatted lines have been stripped; every theorem of `Props/C15.lean` is universally quantified over
+problems and therefore holds for it by instantiation (`C15_atomic_written`). -/
+
+/-- Python `str.rstrip()` on the characters that can end a formatted line -/
+def rstripS (s : String) : String :=
+  String.ofList (s.toList.reverse.dropWhile (fun c => c = ' ' || c = '\t' || c = '\n' || c = '\r')).reverse
+
+def Fmt.strip : Fmt → Fmt
+  | .lines ls => .lines (ls.map rstripS)
+  | .raises e => .raises e
+
+def Problem.strip (p : Problem) : Problem :=
+  { message := p.message.map Fmt.strip, title := p.title.strip, cells := p.cells.map Fmt.strip,
+    surfaces := p.surfaces.map Fmt.strip, dataInputs := p.dataInputs.map Fmt.strip,
+    modifiers := p.modifiers.map Fmt.strip }
+
+/-- mcnp_problem.py:MCNP_Problem.write_to_file as it is now -/
+def writeToFileNow (p : Problem) (fs : FS) (overwrite : Bool) (plan : Fault) : Option Err × FS :=
+  writeToFile p.strip fs overwrite plan
+
+/-- the complete text the repaired writer produces -/
+def renderNow (p : Problem) : Option (List String) := render p.strip
+
 end MontePyVerif.Write
